@@ -159,4 +159,14 @@ inductive AccOp | workerReturnsOwnSums | submitEvery | awaitEveryCompleted | acc
 
 def accumulateModel : List AccOp := [.workerReturnsOwnSums, .submitEvery, .awaitEveryCompleted, .accumulateInCaller]
 
+/-- where the code calls `threading.Lock()`: the four file locks in the constructors (one per object, made by the constructing
+    thread before any block is in flight), the read locks of `ParamStats` by the caller before its workers start - a lock made by a
+    worker on first use could be made twice (the machine's `init` assumes one lock per file) -/
+inductive LockSite
+  | fuseCorrInInit | fuseParamInInit | pairSrcInInit | pairRefInInit | statsWindowBeforeWorkers | statsSumsBeforeWorkers
+  deriving Repr, DecidableEq
+
+def lockSitesModel : List LockSite :=
+  [.fuseCorrInInit, .fuseParamInInit, .pairSrcInInit, .pairRefInInit, .statsWindowBeforeWorkers, .statsSumsBeforeWorkers]
+
 end Homonim
